@@ -13,7 +13,7 @@ from ..program import AnalysisError, FuncInfo, Program, norm, walk_local, ancest
 from ..report import Check
 from ..types import Types
 from ..util import calls_in, fkey, is_method_call, node_calls, path_of, recv_of, where
-from .mgr import MGR, CORE, const_resolver, self_call
+from .mgr import snapshot_loop_sends, MGR, CORE, const_resolver, self_call
 from .c14 import conn_error_handlers, catches_conn_error
 from .c19 import module_param
 
@@ -418,31 +418,12 @@ def run(prog: Program, chk: Check):
     idem_notice = all(any(not guards.any_path_implies(rgs.at(n), gl) for gl in live_goal) for n in scc) if scc else False
     U.decide(idem and idem_notice, fkey(rm, "idempotent"), where(rm), "remove_module does nothing for a module that is no longer in the table",
              "remove_module(module) on an already removed module raises KeyError at `del self.modules[module.conn]` / republishes CLIENT_CLOSED (it is reachable twice for one module: nested removal during forward_message)")
-    for f in (mm.methods["forward_message"], mm.methods["send_to_loggers"], mm.methods["send_active_clients"]):
-        g = C.build(f.node)
-        gs = flow.guard_states(g)
-        for lp in [n for n in walk_local(f.node) if isinstance(n, (ast.For,))]:
-            uses = []
-            for n in g.nodes:
-                if n.ast is None or not any(a is lp for a in ancestors(n.ast)):
-                    continue
-                for c in node_calls(n):
-                    if is_method_call(c, "send_message") and ty.expr(f, recv_of(c)).is_cls("Module") and not any(isinstance(a, ast.ExceptHandler) for a in ancestors(c)):
-                        uses.append((n, c))
-            if not uses:
-                continue
-            # can the loop body remove modules other than the current one?
-            body_calls = [fi for (cnode, st, fi, d) in cg.calls.get(f.key, []) if fi is not None and any(a is lp for a in ancestors(cnode))]
-            nested_removal = any(fi.key == rm.key or rm.key in cg.may_call(fi) for fi in body_calls)
-            if not nested_removal:
-                U.ok(fkey(f, f"loop:{norm(lp.iter)[:40]}"), where(f, lp), "body cannot remove modules")
-                continue
-            for n, c in uses:
-                mv = path_of(recv_of(c))
-                goals = [guards.parse(f"{mv}.conn in self.modules"), guards.parse(f"{mv}.connected"), guards.parse(f"{mv} in self.logger_modules")]
-                okl = any(not guards.any_path_implies(gs.at(n), gl) for gl in goals)
-                U.decide(okl, fkey(f, f"liveness-before:{norm(c)}"), where(f, c), "liveness of the module is re-established in this iteration before the send",
-                         f"{f.qual}: `{norm(c)}` may address a module that an earlier iteration's failure handling already removed (closed socket -> OSError, not a ConnectionError)")
+    for f, lp, c, verdict in snapshot_loop_sends(prog, ty, cg, mm, rm):
+        if verdict == "no-nested-removal":
+            U.ok(fkey(f, f"loop:{norm(lp.iter)[:40]}"), where(f, lp), "body cannot remove modules")
+        else:
+            U.decide(verdict == "live", fkey(f, f"liveness-before:{norm(c)}"), where(f, c), "liveness of the module is re-established in this iteration before the send",
+                     f"{f.qual}: `{norm(c)}` may address a module that an earlier iteration's failure handling already removed (closed socket -> OSError, not a ConnectionError)")
 
     # the service loop itself: a module removed earlier in the same round (nested removal while processing another
     # client's frame) must not be read from: liveness of the source is re-established per iteration
